@@ -1,6 +1,8 @@
 // component `api`: the whole exported surface (setup, banks, sequencer control, real-time, audio, hooks, close)
 // one call per line; observation = return value, the events the registered hooks received during the call,
 // and (for most calls) the canonical settings line.
+#include <cstdarg>
+#include <cstdio>
 #include "access.hpp"
 #include <unistd.h>
 #include <cmath>
@@ -76,7 +78,12 @@ void noteHook(void *ud, int adlchn, int note, int ins, int pressure, double bend
     (void)adlchn; (void)ins; (void)bend;
     if(l->rec()) l->ev << "N@" << l->stamp() << "," << note << "," << pressure << ";";
 }
-void debugHook(void *ud, const char *fmt, ...) { Log *l = static_cast<Log *>(ud); l->nDebug++; (void)fmt; }
+void debugHook(void *ud, const char *fmt, ...)
+{
+    // format the message as a real hook does: every %s argument is read up to its terminating zero
+    Log *l = static_cast<Log *>(ud); l->nDebug++;
+    char buf[512]; va_list ap; va_start(ap, fmt); vsnprintf(buf, sizeof(buf), fmt, ap); va_end(ap);
+}
 void loopStartHook(void *ud) { Log *l = static_cast<Log *>(ud); l->nLoopStart++; if(l->rec()) l->ev << "LS@" << l->stamp() << ";"; }
 void loopEndHook(void *ud) { Log *l = static_cast<Log *>(ud); l->nLoopEnd++; if(l->rec()) l->ev << "LE@" << l->stamp() << ";"; }
 
